@@ -175,12 +175,14 @@ class Engine(object):
         self.ite_load_max = 1024
         self.nondet_values = None
         self.div_witness = False
+        self.resolve_bools = False
+        self.fresh_tag = ''
         self._cur_state = None
 
     # ------------------------------------------------------------------
     def fresh(self, prefix, bits):
         self._fresh += 1
-        return z3.BitVec('%s!%d' % (prefix, self._fresh), bits)
+        return z3.BitVec('%s%s!%d' % (prefix, self.fresh_tag, self._fresh), bits)
 
     def _trapset(self, F):
         ts = self.trap_blocks.get(F.name)
@@ -331,6 +333,30 @@ class Engine(object):
             return True
         raise _Fork([(c, key, True), (z3.Not(c), key, False)], c)
 
+    def resolve(self, st, cond):
+        """True/False when the path condition decides the Bool term, else None (never forks)."""
+        c = z3.simplify(cond)
+        if is_true(c):
+            return True
+        if is_false(c):
+            return False
+        key = c.get_id()
+        d = st.decisions.get(key)
+        if d is not None:
+            return d
+        rk = ('r', key)
+        if rk in st.decisions:
+            return None
+        st.keep.append(c)
+        if self.ctx.check(st.pc, c) == 'unsat':
+            st.decisions[key] = False
+            return False
+        if self.ctx.check(st.pc, z3.Not(c)) == 'unsat':
+            st.decisions[key] = True
+            return True
+        st.decisions[rk] = 0
+        return None
+
     def concretize(self, st, term, limit=4096, what='value'):
         """Case split: a concrete value of term on this path (forks once per feasible value)."""
         if type(term) is int:
@@ -437,9 +463,7 @@ class Engine(object):
         off = p.off
         if type(off) is not int:
             cells = self._cells(st, p.obj, False, line)
-            if len(cells) <= self.ite_load_max:
-                return self._load_symbolic(st, p, cells, nbytes, kind, bits, line)
-            off = self._off(st, p, line)
+            return self._load_symbolic(st, p, cells, nbytes, kind, bits, line)
         cells = self._cells(st, p.obj, False, line)
         if off < 0 or off + nbytes > len(cells):
             raise Defect('memory', 'out-of-bounds read of %d bytes at offset %d of %s (size %d)' % (
@@ -512,43 +536,49 @@ class Engine(object):
         return v
 
     def _load_symbolic(self, st, p, cells, nbytes, kind, bits, line):
-        """Load through a pointer whose offset is a term, from a small object: the out-of-bounds case is
-        a defect (forked off when feasible), the in-bounds case is an ite chain over the feasible offsets."""
+        """Load through a pointer whose offset is a term: enumerate the feasible offsets with the solver
+        (model / block / repeat); an out-of-bounds one is a defect (forked off), the in-bounds ones are
+        combined into an ite chain."""
         off = z3.simplify(p.off)
         if z3.is_bv_value(off):
             return self.load(st, Ptr(p.obj, _sx(off.as_long(), 64)), nbytes, kind, bits, line)
         size = len(cells)
         last = size - nbytes
-        oob = z3.Or(off < 0, off > last) if last >= 0 else z3.BoolVal(True)
-        key = ('oob', oob.get_id())
-        d = st.decisions.get(key)
-        if d is None:
-            st.keep.append(oob)
-            r = self.ctx.check(st.pc, oob)
-            if r == 'unsat':
-                st.decisions[key] = False
-            elif r == 'unknown' and self.defer_traps:
-                st.obligations.append(('trap', oob, 'out-of-bounds read of %s line %d' % (
-                    self.obj_name(st, p.obj), line), list(st.pc)))
-                st.decisions[key] = False
-            else:
-                r2 = self.ctx.check(st.pc, z3.Not(oob))
-                if r2 == 'unsat':
-                    st.decisions[key] = True
-                    d = True
-                else:
-                    raise _Fork([(oob, key, True), (z3.Not(oob), key, False)], oob)
-        if d:
-            raise Defect('memory', 'out-of-bounds read of %d bytes at symbolic offset of %s (size %d)' % (
-                nbytes, self.obj_name(st, p.obj), size), line)
-        # candidate offsets: every in-bounds offset that is feasible
-        cands = []
-        for k in range(0, last + 1):
-            if self.ctx.check(st.pc, off == k) != 'unsat':
-                cands.append(k)
+        key = ('lo', off.get_id(), nbytes)
+        cands = st.decisions.get(key)
+        if cands is None:
+            st.keep.append(off)
+            cands = []
+            block = []
+            while True:
+                r = self.ctx.check(st.pc, z3.And(block) if block else None)
+                if r == 'unknown':
+                    raise EngineError('solver unknown while enumerating pointer offsets')
+                if r == 'unsat':
+                    break
+                v = self.ctx.model().eval(off, model_completion=True).as_long()
+                cands.append(_sx(v, 64))
+                block.append(off != v)
+                if len(cands) > 256:
+                    raise EngineError('more than 256 feasible offsets for a symbolic pointer')
+            st.decisions[key] = cands
         if not cands:
             self.stats['infeasible'] += 1
             self._finish(st, 'infeasible')
+        bad = [k for k in cands if k < 0 or k > last]
+        if bad:
+            oob = z3.Or([off == k for k in bad])
+            okey = ('oob', off.get_id(), nbytes)
+            d = st.decisions.get(okey)
+            if d is None:
+                if len(bad) == len(cands):
+                    d = True
+                else:
+                    raise _Fork([(oob, okey, True), (z3.Not(oob), okey, False)], off)
+            if d:
+                raise Defect('memory', 'out-of-bounds read of %d bytes at offset %d of %s (size %d)' % (
+                    nbytes, bad[0], self.obj_name(st, p.obj), size), line)
+            cands = [k for k in cands if not (k < 0 or k > last)]
         vals = [self.load(st, Ptr(p.obj, k), nbytes, kind, bits, line) for k in cands]
         res = vals[-1]
         for k, v in zip(cands[-2::-1], vals[-2::-1]):
@@ -736,7 +766,11 @@ class Engine(object):
                         elif a is UNDEF:
                             regs[ins[1]] = UNDEF
                         elif z3.is_bool(a):
-                            regs[ins[1]] = z3.If(a, BitVecVal(1, ins[4]), BitVecVal(0, ins[4]))
+                            r = self.resolve(st, a) if self.resolve_bools else None
+                            if r is not None:
+                                regs[ins[1]] = 1 if r else 0
+                            else:
+                                regs[ins[1]] = z3.If(a, BitVecVal(1, ins[4]), BitVecVal(0, ins[4]))
                         else:
                             regs[ins[1]] = z3.ZeroExt(ins[4] - ins[3], a)
                         ip += 1
@@ -778,7 +812,11 @@ class Engine(object):
                                 a = (a - (1 << fb)) & ((1 << ins[4]) - 1)
                             regs[ins[1]] = a
                         elif z3.is_bool(a):
-                            regs[ins[1]] = z3.If(a, BitVecVal(-1, ins[4]), BitVecVal(0, ins[4]))
+                            r = self.resolve(st, a) if self.resolve_bools else None
+                            if r is not None:
+                                regs[ins[1]] = ((1 << ins[4]) - 1) if r else 0
+                            else:
+                                regs[ins[1]] = z3.If(a, BitVecVal(-1, ins[4]), BitVecVal(0, ins[4]))
                         elif a is UNDEF:
                             regs[ins[1]] = UNDEF
                         else:
@@ -967,6 +1005,10 @@ class Engine(object):
             return b
         if a is b:
             return a
+        if self.resolve_bools:
+            r = self.resolve(st, cs)
+            if r is not None:
+                return a if r else b
         if kind == 'i':
             if a is UNDEF:
                 return b
